@@ -8,6 +8,7 @@ from .world import World, Unsupported
 from . import ops, repo, contracts
 from .engine import State, Outcome, ExcVal, SpecCtx
 from .executor import Executor, Obligation, _exc_class
+from . import trace
 
 
 class FuncResult:
@@ -47,13 +48,17 @@ def verify_function(world, qualname):
         v = fresh(ty, n)
         st.locals[n] = v
         st.pc += world.type_facts(v, st.heap)
+    st.pc += trace.wellformed(world, st.heap)
     st.entry_locals = dict(st.locals)
     st.entry_heap = st.heap.copy()
     # preconditions
     cx = SpecCtx(st.locals, st.heap, st.locals, st.heap, st, fr)
     for n, text in c.let_d:
-        st.locals[n] = ex.S.eval(text, cx)
-        st.entry_locals[n] = st.locals[n]
+        val = ex.S.eval(text, cx)
+        named = fresh(val.ty, 'let_' + n)          # a name for the value keeps the VCs small
+        st.pc += [a == b for a, b in zip(named.t, val.t)]
+        st.locals[n] = named
+        st.entry_locals[n] = named
     for name, text in c.requires_l:
         b = ex.S.eval_bool(text, cx)
         st.pc.append(b)
@@ -128,84 +133,228 @@ def check_exceptional_exit(ex, c, st, exc, short, entry):
 
 def check_frame(ex, c, st, short, entry):
     """everything not named in `modifies` is unchanged (for objects allocated on entry)"""
-    h0 = entry.entry_heap
-    allowed = {}      # key -> list of allowed refs, or None for 'anything'
-    cx = SpecCtx(entry.entry_locals, h0, entry.entry_locals, h0, st, ex.frame)
-    for m in c.modifies_l:
-        m = m.strip()
-        if m == 'new':
-            continue
-        e = ast.parse(m, mode='eval').body
-        if isinstance(e, ast.Call) and isinstance(e.func, ast.Name):
-            kind = e.func.id
-            if kind == 'global':
-                allowed[('g', ast.unparse(e.args[0]))] = None
-                continue
-            if kind == 'field':
-                fq = ast.unparse(e.args[0])
-                clsq, fname = fq.rsplit('.', 1)
-                decl = ex.W.field_decl(ex.W.cls_by_name(clsq), fname)
-                allowed[('f', decl[0])] = None
-                continue
-            target = ex.S.eval(e.args[0], cx)
-            if kind == 'list':
-                keys = [h0.list_len_key()] + h0.list_arr_keys(target.ty.elem)
-            elif kind == 'dict':
-                keys = [h0.dict_has_key(target.ty.k), h0.dict_size_key()] + h0.dict_val_keys(target.ty.k, target.ty.v)
-            elif kind == 'set':
-                keys = [h0.set_has_key(target.ty.k), h0.set_size_key()]
-            else:
-                raise Unsupported('modifies target ' + m)
-            for k in keys:
-                if allowed.get(k, []) is not None:
-                    allowed.setdefault(k, []).append(target.term)
-        elif isinstance(e, ast.Attribute):
-            obj = ex.S.eval(e.value, cx)
-            for gk, (what, classes) in ex.attr_candidates(obj, e.attr, []).items():
-                if gk[0] == 'field':
-                    k = ('f', what[0])
-                    if allowed.get(k, []) is not None:
-                        allowed.setdefault(k, []).append(obj.term)
-                    pk = ('present', what[0])
-                    allowed.setdefault(pk, []).append(obj.term)
-        else:
-            raise Unsupported('modifies target ' + m)
-    for key in st.heap.keys():
-        if key[0] == 'alloc':
-            continue
-        a0 = h0.get(key)
-        a1 = st.heap.get(key)
-        if all(x.eq(y) for x, y in zip(a0, a1)):
-            continue
-        if key[0] == 'g':
-            if key[1].startswith('$') or key in allowed:
-                continue
-            ex.oblige(st, z3.And([x == y for x, y in zip(a0, a1)]), '%s.frame.%s' % (short, key[1]), 'frame')
-            continue
-        if key in allowed and allowed[key] is None:
-            continue
-        refs = allowed.get(key, [])
-        r = z3.Int(fresh_name('r'))
-        for x, y in zip(a0, a1):
-            if x.eq(y):
-                continue
-            goal = z3.ForAll([r], z3.Implies(z3.And([h0.is_alloc(r)] + [r != t for t in refs]), z3.Select(x, r) == z3.Select(y, r)))
-            ex.oblige(st, goal, '%s.frame.%s' % (short, '.'.join(str(p) for p in key[1:])), 'frame')
+    ex.check_frame_against(c.modifies_l, entry.entry_heap, entry.entry_locals, st, short + '.frame', c.keeps_epoch)
 
 
 # ---------------------------------------------------------------- SMT-LIB text of an obligation
+def _symbols(t, cache):
+    k = t.get_id()
+    if k in cache:
+        return cache[k]
+    out = set()
+    stack = [t]
+    seen = set()
+    while stack:
+        x = stack.pop()
+        if x.get_id() in seen:
+            continue
+        seen.add(x.get_id())
+        if z3.is_quantifier(x):
+            stack.append(x.body())
+            continue
+        if z3.is_app(x):
+            d = x.decl()
+            if d.kind() == z3.Z3_OP_UNINTERPRETED:
+                out.add(d.name())
+            stack.extend(x.children())
+    cache[k] = out
+    return out
+
+
+_SYMCACHE = {}
+
+
+_QCACHE = {}
+
+
+def _isq(h):
+    k = h.get_id()
+    if k not in _QCACHE:
+        _QCACHE[k] = has_quantifier(h)
+    return _QCACHE[k]
+
+
+def relevant_subset(hyps, goal, rounds=3, rounds_q=None):
+    """hypotheses connected to the goal through shared uninterpreted symbols (sound: a subset of the hypotheses);
+    quantified hypotheses only within rounds_q steps (they are the expensive ones)"""
+    cache = _SYMCACHE
+    syms = set(_symbols(goal, cache))
+    chosen = [False] * len(hyps)
+    hs = [_symbols(h, cache) for h in hyps]
+    generic = {'cls_of', 'slen', 'sat', 'H0|alloc|0'}
+    for rnd_i in range(rounds):
+        changed = False
+        for i, h in enumerate(hyps):
+            if rounds_q is not None and rnd_i >= rounds_q and _isq(h):
+                continue
+            if not chosen[i] and (hs[i] - generic) & syms:
+                chosen[i] = True
+                syms |= (hs[i] - generic)
+                changed = True
+        if not changed:
+            break
+    return [h for i, h in enumerate(hyps) if chosen[i]]
+
+
+def solve_in_process(world, ex, ob, unfold_depth=2, budgets=((1, 400),)):
+    """cheap first attempts inside the generating process: goal under the hypotheses within `rounds` symbol-sharing
+    steps of the goal.  -> (verdict, seconds) ; verdict 'unsat' discharges, anything else means 'export to the pool'"""
+    import time
+    facts = ex.S.unfold(ob.apps, unfold_depth, Heap()) if ob.apps else []
+    allh = list(ob.hyps) + facts
+    t0 = time.time()
+    prev = -1
+    for rounds, ms in budgets:
+        rel = relevant_subset(allh, ob.goal, rounds)
+        if len(rel) == prev:
+            continue
+        prev = len(rel)
+        s = z3.Solver()
+        s.set('timeout', ms)
+        for a in _bg(world):
+            s.add(a)
+        for f in lit_facts():
+            s.add(f)
+        for h in rel:
+            s.add(h)
+        s.add(z3.Not(ob.goal))
+        if s.check() == z3.unsat:
+            return 'unsat', time.time() - t0
+    return 'open', time.time() - t0
+
+
+def discharge(world, ex, ob, unfold_depth, timeout_ms, seed, stages=True):
+    """Decide one obligation in process.  Stages: the goal under growing SUBSETS of the hypotheses (any `unsat`
+    discharges it), then all hypotheses, then cvc5 on the SMT-LIB text if z3 says unknown."""
+    import time
+    from . import solve
+    t0 = time.time()
+    key = tuple(a.get_id() for _, _, a in ob.apps)
+    facts = _UNFOLD_MEMO.get((key, unfold_depth))
+    if facts is None:
+        facts = ex.S.unfold(ob.apps, unfold_depth, Heap()) if ob.apps else []
+        _UNFOLD_MEMO[(key, unfold_depth)] = facts
+    allh = list(ob.hyps) + facts
+    plan = [(1, None, 400), (4, 1, 3000), (2, None, 2000), (6, 2, 4000), (4, None, 4000)] if stages else []
+    prev = -1
+    for rounds, rq, ms in plan:
+        rel = relevant_subset(allh, ob.goal, rounds, rq)
+        if len(rel) == prev:
+            continue
+        prev = len(rel)
+        s = z3.Solver()
+        s.set('timeout', min(ms, timeout_ms))
+        s.set('random_seed', seed)
+        for a in _bg(world):
+            s.add(a)
+        for f in lit_facts():
+            s.add(f)
+        for h in rel:
+            s.add(h)
+        s.add(z3.Not(ob.goal))
+        if s.check() == z3.unsat:
+            return {'verdict': 'unsat', 'solver': 'z3', 'time_s': round(time.time() - t0, 3), 'stage': 'hyps-within-%d%s' % (rounds, '' if rq is None else '/q%d' % rq)}
+    text = obligation_smt2(world, ex, ob, unfold_depth)
+    r = solve.solve_one(('x', text, timeout_ms, seed, stages))
+    r.pop('name', None)
+    r['time_s'] = round(time.time() - t0, 3)
+    r['stage'] = 'all-hypotheses'
+    if r['verdict'] != 'unsat':
+        r['smt2'] = text
+    return r
+
+
+_UNFOLD_MEMO = {}
+_BG = []
+
+
+def _bg(world):
+    if not _BG:
+        _BG.extend(background_axioms(world))
+    return _BG
+
+
+def obligation_variants(world, ex, ob, unfold_depth=2):
+    """SMT-LIB texts of one obligation, cheapest first; each is the goal under a SUBSET of the available
+    hypotheses, so `unsat` for any of them discharges the obligation"""
+    full = obligation_smt2(world, ex, ob, unfold_depth)
+    s = z3.Solver()
+    facts = ex.S.unfold(ob.apps, unfold_depth, Heap()) if ob.apps else []
+    out = []
+    prev = -1
+    for rounds in (1, 2, 4):
+        rel = relevant_subset(list(ob.hyps) + facts, ob.goal, rounds)
+        if len(rel) == prev:
+            continue
+        prev = len(rel)
+        s = z3.Solver()
+        for a in background_axioms(world):
+            s.add(a)
+        for f in lit_facts():
+            s.add(f)
+        for h in rel:
+            s.add(h)
+        s.add(z3.Not(ob.goal))
+        out.append(s.to_smt2())
+    return out + [full]
+
+
 def obligation_smt2(world, ex, ob, unfold_depth=2):
     s = z3.Solver()
     for a in background_axioms(world):
         s.add(a)
     hyps = list(ob.hyps)
     facts = ex.S.unfold(ob.apps, unfold_depth, Heap()) if ob.apps else []
+    seen_fns = {}
+    for sf, _, _ in ob.apps:
+        if sf.recursive and sf.quantified_axiom:
+            seen_fns[sf.name] = sf
+    for sf in seen_fns.values():
+        facts.append(ex.S.definitional_axiom(sf))
+    names = set(sf.name for sf, _, _ in ob.apps)
+    for lc in contracts.LEMMAS.values():
+        if ob.func.startswith('lemma.'):
+            order = list(contracts.LEMMAS)
+            me = ob.func.split('.', 1)[1]
+            if me in order and order.index(lc.qualname.split('.', 1)[1]) >= order.index(me):
+                continue        # a lemma may only rely on lemmas stated before it (no circular reasoning)
+        if getattr(lc, 'axiom_for', ()) and names & set(lc.axiom_for) and ob.func != lc.qualname:
+            facts.append(lemma_axiom(world, ex, lc))
+            USED_LEMMA_AXIOMS.add(lc.qualname)
     for f in lit_facts():
         s.add(f)
     for h in hyps + facts:
         s.add(h)
     s.add(z3.Not(ob.goal))
     return s.to_smt2()
+
+
+USED_LEMMA_AXIOMS = set()
+
+
+def lemma_axiom(world, ex, lc):
+    """forall params. requires -> ensures  of a lemma (which is itself verified in the same run)"""
+    ptypes = world.param_types(lc.fn, lc)
+    env = {n: fresh(t, 'L_' + n) for n, t in ptypes.items()}
+    heap = Heap()
+    ep = z3.Int(fresh_name('L_epoch'))
+    heap.write_global('$epoch', INT, mk_int(ep))
+    bound = [ep]
+    for v in env.values():
+        bound += list(v.t)
+    class _St: pass
+    st = _St(); st.apps = []
+    cx = SpecCtx(env, heap, env, heap, st, None)
+    pre = [ex.S.eval_bool(t, cx) for _, t in lc.requires_l]
+    for v in env.values():
+        pre += world.type_facts(v, heap)
+    post = [ex.S.eval_bool(t, cx) for _, t in lc.ensures_l]
+    pats = [app for _, _, app in st.apps]
+    body = z3.Implies(z3.And(pre + cx.facts) if pre or cx.facts else z3.BoolVal(True), z3.And(post))
+    if pats:
+        # one multi-pattern of all applications that mention a bound variable
+        return z3.ForAll(bound, body, patterns=[z3.MultiPattern(*pats)] if len(pats) > 1 else [pats[0]])
+    return z3.ForAll(bound, body)
 
 
 def has_quantifier(t, _seen=None):
